@@ -326,6 +326,10 @@ func AddVirtualTableAndMapping(tname *string, mapping *string, orgid int64) erro
 }
 
 func AddMapping(tname *string, mapping *string, orgid int64) error {
+	if tname == nil || !IsValidIndexName(*tname) {
+		return fmt.Errorf("AddMapping: invalid index name")
+	}
+
 	var sb1 strings.Builder
 	sb1.WriteString(VTableMappingsDir)
 	if orgid != 0 {
@@ -465,6 +469,10 @@ func GetAliasesAsArray(indexName string, orgid int64) ([]string, error) {
 }
 
 func GetAliases(indexName string, orgid int64) (map[string]bool, error) {
+	if !IsValidIndexName(indexName) {
+		return map[string]bool{}, fmt.Errorf("GetAliases: invalid index name")
+	}
+
 	var sb1 strings.Builder
 	sb1.WriteString(VTableAliasesDir)
 	if orgid != 0 {
@@ -500,6 +508,10 @@ func GetAliases(indexName string, orgid int64) (map[string]bool, error) {
 }
 
 func writeAliasFile(indexName *string, allnames map[string]bool, orgid int64) error {
+	if indexName == nil || !IsValidIndexName(*indexName) {
+		return fmt.Errorf("writeAliasFile: invalid index name")
+	}
+
 	var sb1 strings.Builder
 	sb1.WriteString(VTableAliasesDir)
 	if orgid != 0 {
@@ -661,6 +673,10 @@ func RemoveAliases(indexName string, aliases []string, orgid int64) error {
 }
 
 func removeAliasFile(indexName *string, orgid int64) error {
+	if indexName == nil || !IsValidIndexName(*indexName) {
+		return fmt.Errorf("removeAliasFile: invalid index name")
+	}
+
 	var sb1 strings.Builder
 	sb1.WriteString(VTableAliasesDir)
 	if orgid != 0 {
